@@ -129,6 +129,75 @@ static void do_get(FILE *o, struct xcm_socket *s, const char *name, const char *
     free(bufs[0]); free(bufs[1]);
 }
 
+#include <netinet/in.h>
+#include <netinet/tcp.h>
+#include <arpa/inet.h>
+#include <sys/socket.h>
+
+/* the kernel descriptor whose local TCP port is the one in an XCM address "proto:ip:port" */
+static int fd_by_local_addr(const char *xaddr)
+{
+    const char *c = xaddr ? strrchr(xaddr, ':') : NULL;
+    if (!c) return -1;
+    int port = atoi(c + 1);
+    for (int fd = 3; fd < 1024; fd++) {
+	struct sockaddr_in sa; socklen_t l = sizeof(sa);
+	int type; socklen_t tl = sizeof(type);
+	if (getsockopt(fd, SOL_SOCKET, SO_TYPE, &type, &tl) < 0 || type != SOCK_STREAM) continue;
+	if (getsockname(fd, (struct sockaddr *)&sa, &l) < 0 || sa.sin_family != AF_INET) continue;
+	struct sockaddr_in pa; socklen_t pl = sizeof(pa);
+	if (getpeername(fd, (struct sockaddr *)&pa, &pl) < 0) continue;      /* listening socket */
+	if (ntohs(sa.sin_port) == port) return fd;
+    }
+    return -1;
+}
+
+static void show_kernel_opts(FILE *o, int fd)
+{
+    int ka = -1, idle = -1, intvl = -1, cnt = -1, ut = -1; socklen_t l;
+    l = sizeof(ka); getsockopt(fd, SOL_SOCKET, SO_KEEPALIVE, &ka, &l);
+    l = sizeof(idle); getsockopt(fd, SOL_TCP, TCP_KEEPIDLE, &idle, &l);
+    l = sizeof(intvl); getsockopt(fd, SOL_TCP, TCP_KEEPINTVL, &intvl, &l);
+    l = sizeof(cnt); getsockopt(fd, SOL_TCP, TCP_KEEPCNT, &cnt, &l);
+    l = sizeof(ut); getsockopt(fd, SOL_TCP, TCP_USER_TIMEOUT, &ut, &l);
+    fprintf(o, "%d,%d,%d,%d,%d", ka != 0, idle, intvl, cnt, ut / 1000);
+}
+
+static void show_xcm_opts(FILE *o, struct xcm_socket *s)
+{
+    bool ka = false; int64_t t = -1, i = -1, c = -1, u = -1;
+    xcm_attr_get_bool(s, "tcp.keepalive", &ka);
+    xcm_attr_get_int64(s, "tcp.keepalive_time", &t);
+    xcm_attr_get_int64(s, "tcp.keepalive_interval", &i);
+    xcm_attr_get_int64(s, "tcp.keepalive_count", &c);
+    xcm_attr_get_int64(s, "tcp.user_timeout", &u);
+    fprintf(o, "%d,%lld,%lld,%lld,%lld", ka, (long long)t, (long long)i, (long long)c, (long long)u);
+}
+
+/* "name=value,name=value" (tcp.* options: keepalive is bool, the rest int64) */
+static int apply_list(struct xcm_socket *s, struct xcm_attr_map *m, const char *list, FILE *o)
+{
+    if (!strcmp(list, "-")) return 0;
+    char *dup = strdup(list), *save = NULL;
+    int fails = 0;
+    for (char *t = strtok_r(dup, ",", &save); t; t = strtok_r(NULL, ",", &save)) {
+	char *eq = strchr(t, '='); if (!eq) continue;
+	*eq = 0;
+	char name[64];
+	snprintf(name, sizeof(name), "tcp.%s%s", (!strcmp(t, "time") || !strcmp(t, "interval") || !strcmp(t, "count")) ? "keepalive_" : "", t);
+	long long v = atoll(eq + 1);
+	if (!strcmp(t, "keepalive")) {
+	    if (m) xcm_attr_map_add_bool(m, name, v != 0);
+	    else if (xcm_attr_set_bool(s, name, v != 0) < 0) fails++;
+	} else {
+	    if (m) xcm_attr_map_add_int64(m, name, v);
+	    else if (xcm_attr_set_int64(s, name, v) < 0) fails++;
+	}
+    }
+    free(dup);
+    return fails;
+}
+
 int main(void)
 {
     static char line[H_LINE_MAX];
@@ -196,6 +265,118 @@ int main(void)
 		free(ex);
 	    }
 	    free(name); free(val);
+	} else if (!strcmp(w[0], "K") && n == 6) {
+	    /* K <proto> <pre> <during> <post> <accept>: TCP options given in the attribute map of xcm_connect_a, set
+	       between xcm_connect_a and establishment, set afterwards; and in the map of xcm_accept_a.
+	       Prints what XCM reports and what the kernel socket really has, for both ends. */
+	    struct trio t; memset(&t, 0, sizeof(t));
+	    char addr[300]; sys_addr(w[1], addr, sizeof(addr));
+	    struct xcm_attr_map *sm = sys_base_attrs(w[1], true);
+	    t.server = xcm_server_a(addr, sm); xcm_attr_map_destroy(sm);
+	    if (!t.server) { fprintf(o, "fail server %s\n", h_errname(errno)); fflush(o); continue; }
+	    snprintf(t.addr, sizeof(t.addr), "%s", xcm_local_addr(t.server));
+	    struct xcm_attr_map *cm = sys_base_attrs(w[1], true);
+	    apply_list(NULL, cm, w[2], o);
+	    t.client = xcm_connect_a(t.addr, cm); xcm_attr_map_destroy(cm);
+	    if (!t.client) { fprintf(o, "fail connect %s\n", h_errname(errno)); xcm_close(t.server); fflush(o); continue; }
+	    int f1 = apply_list(t.client, NULL, w[3], o);
+	    struct xcm_attr_map *am = xcm_attr_map_create();
+	    xcm_attr_map_add_bool(am, "xcm.blocking", false);
+	    apply_list(NULL, am, w[5], o);
+	    for (int i = 0; i < 2000 && !t.accepted; i++) { t.accepted = xcm_accept_a(t.server, am); if (!t.accepted) { xcm_finish(t.client); usleep(500); } }
+	    xcm_attr_map_destroy(am);
+	    int prc = t.accepted ? sys_pump(&t, 4000) : -1;
+	    int f2 = apply_list(t.client, NULL, w[4], o);
+	    if (prc < 0) fprintf(o, "fail establish %s\n", h_errname(errno));
+	    else {
+		int cfd = fd_by_local_addr(xcm_local_addr(t.client));
+		int afd = fd_by_local_addr(xcm_remote_addr(t.client)) ;
+		/* the accepted socket's local port is the server port: identify it through its peer = client's local */
+		afd = -1;
+		{
+		    const char *c = strrchr(xcm_local_addr(t.client), ':'); int cport = c ? atoi(c + 1) : -1;
+		    for (int fd = 3; fd < 1024; fd++) {
+			struct sockaddr_in pa; socklen_t pl = sizeof(pa);
+			if (getpeername(fd, (struct sockaddr *)&pa, &pl) == 0 && pa.sin_family == AF_INET && ntohs(pa.sin_port) == cport) { afd = fd; break; }
+		    }
+		}
+		fprintf(o, "client xcm="); show_xcm_opts(o, t.client); fprintf(o, " kernel="); show_kernel_opts(o, cfd);
+		fprintf(o, " accepted xcm="); show_xcm_opts(o, t.accepted); fprintf(o, " kernel="); show_kernel_opts(o, afd);
+		fprintf(o, " setfails=%d,%d\n", f1, f2);
+	    }
+	    sys_close_trio(&t);
+	} else if (!strcmp(w[0], "LA") && n == 3) {
+	    /* LA <proto> <local xcm addr>: xcm.local_addr on connect; prints the client's local and the peer-visible address */
+	    struct trio t;
+	    struct xcm_attr_map *m = xcm_attr_map_create();
+	    xcm_attr_map_add_str(m, "xcm.local_addr", w[2]);
+	    int rc = sys_establish(w[1], &t, m, NULL);
+	    xcm_attr_map_destroy(m);
+	    if (rc < 0) fprintf(o, "fail %s\n", h_errname(errno));
+	    else fprintf(o, "local=%s seen_by_peer=%s\n", xcm_local_addr(t.client), xcm_remote_addr(t.accepted));
+	    sys_close_trio(&t);
+	} else if (!strcmp(w[0], "SV") && n == 4) {
+	    /* SV <server|connect> <addr> <service> */
+	    struct xcm_attr_map *m = xcm_attr_map_create();
+	    xcm_attr_map_add_str(m, "xcm.service", w[3]);
+	    xcm_attr_map_add_bool(m, "xcm.blocking", false);
+	    errno = 0;
+	    struct xcm_socket *s = !strcmp(w[1], "server") ? xcm_server_a(w[2], m) : xcm_connect_a(w[2], m);
+	    int e = errno;
+	    xcm_attr_map_destroy(m);
+	    if (s) {
+		char sv[64] = ""; xcm_attr_get_str(s, "xcm.service", sv, sizeof(sv));
+		fprintf(o, "ok service=%s\n", sv);
+		xcm_close(s);
+	    } else fprintf(o, "null %s\n", h_errname(e));
+	} else if (!strcmp(w[0], "BL") && n == 4) {
+	    /* BL <sock> <api|attr> <0|1>: switch blocking mode one way, read it back both ways */
+	    struct xcm_socket *s = find(w[1]);
+	    if (!s) { fputs("nosock\n", o); } else {
+		int rc = !strcmp(w[2], "api") ? xcm_set_blocking(s, atoi(w[3])) : xcm_attr_set_bool(s, "xcm.blocking", atoi(w[3]));
+		bool a = false; xcm_attr_get_bool(s, "xcm.blocking", &a);
+		fprintf(o, "%d is_blocking=%d attr=%d\n", rc, xcm_is_blocking(s), a);
+	    }
+	} else if (!strcmp(w[0], "IN") && n == 4) {
+	    /* IN <proto> <server bool attrs k=v,...> <accept bool attrs>: what the accepted connection reports */
+	    struct xcm_attr_map *sm = xcm_attr_map_create(), *am = xcm_attr_map_create();
+	    for (int which = 0; which < 2; which++) {
+		if (!strcmp(w[2 + which], "-")) continue;
+		char *dup = strdup(w[2 + which]), *save = NULL;
+		for (char *t = strtok_r(dup, ",", &save); t; t = strtok_r(NULL, ",", &save)) {
+		    char *eq = strchr(t, '='); if (!eq) continue; *eq = 0;
+		    xcm_attr_map_add_bool(which ? am : sm, t, atoi(eq + 1));
+		}
+		free(dup);
+	    }
+	    struct trio t; memset(&t, 0, sizeof(t)); t.proto = w[1];
+	    char addr[300]; sys_addr(w[1], addr, sizeof(addr));
+	    struct xcm_attr_map *bm = sys_base_attrs(w[1], true); xcm_attr_map_add_all(bm, sm);
+	    t.server = xcm_server_a(addr, bm); xcm_attr_map_destroy(bm);
+	    if (!t.server) { fprintf(o, "fail server %s\n", h_errname(errno)); }
+	    else {
+		snprintf(t.addr, sizeof(t.addr), "%s", xcm_local_addr(t.server));
+		struct xcm_attr_map *cm = sys_base_attrs(w[1], true);
+		xcm_attr_map_add_bool(cm, "tls.auth", false);          /* the client does not judge the server here */
+		t.client = xcm_connect_a(t.addr, cm); xcm_attr_map_destroy(cm);
+		xcm_attr_map_add_bool(am, "xcm.blocking", false);
+		for (int i = 0; i < 2000 && !t.accepted && t.client; i++) { t.accepted = xcm_accept_a(t.server, am); if (!t.accepted) { xcm_finish(t.client); usleep(500); } }
+		if (!t.accepted) fprintf(o, "fail accept %s\n", h_errname(errno));
+		else {
+		    const char *names[] = { "tls.auth", "tls.check_time", "tls.check_crl", "tls.verify_peer_name", "tls.client" };
+		    fputs("accepted", o);
+		    for (unsigned i = 0; i < sizeof(names) / sizeof(names[0]); i++) {
+			bool sv = false, av = false;
+			int r1 = xcm_attr_get_bool(t.server, names[i], &sv), r2 = xcm_attr_get_bool(t.accepted, names[i], &av);
+			fprintf(o, " %s:%d/%d", names[i], r1 < 0 ? -1 : sv, r2 < 0 ? -1 : av);
+		    }
+		    char sv[64] = "", av[64] = "";
+		    xcm_attr_get_str(t.server, "xcm.service", sv, sizeof(sv)); xcm_attr_get_str(t.accepted, "xcm.service", av, sizeof(av));
+		    fprintf(o, " service:%s/%s\n", sv, av);
+		}
+	    }
+	    sys_close_trio(&t);
+	    xcm_attr_map_destroy(sm); xcm_attr_map_destroy(am);
 	} else if (!strcmp(w[0], "X") && n == 1) {
 	    for (int i = 0; i < nsocks; i++)
 		if (socks[i] && socks[i] != trio.server && socks[i] != trio.client && socks[i] != trio.accepted)
